@@ -94,12 +94,12 @@ type TillEv struct {
 }
 
 type Measure struct {
-	Date  int      `json:"date"`
-	Nmin  [6]int   `json:"nmin"`  // kg N per block, tenths
-	Mode  int      `json:"mode"`  // M column: 1 fraction of available water, 2, 3 absolute
-	Water [6]int   `json:"water"` // thousandths
-	Ident string   `json:"ident"`
-	Enc   string   `json:"enc"` // txt | csv
+	Date  int    `json:"date"`
+	Nmin  [6]int `json:"nmin"`  // kg N per block, tenths
+	Mode  int    `json:"mode"`  // M column: 1 fraction of available water, 2, 3 absolute
+	Water [6]int `json:"water"` // thousandths
+	Ident string `json:"ident"`
+	Enc   string `json:"enc"` // txt | csv
 }
 
 type GWPoint struct {
@@ -113,74 +113,75 @@ type OutCol struct {
 	Idx2   int    `json:"i2,omitempty"`
 	Format string `json:"fmt"`
 	Width  int    `json:"w,omitempty"`
+	Align  string `json:"align,omitempty"` // DataAlignment: left | right | center | none ("" = right)
 }
 
 type Config struct {
-	DateFormat     int     `json:"dateFormat"`
-	DivideCentury  int     `json:"century"`
-	GWFrom         string  `json:"gwFrom"` // soilfile | polygonfile | gwTimeSeries
-	ResultFormat   int     `json:"resultFormat"`
-	ResultExt      string  `json:"resultExt,omitempty"`
-	OutInt         int     `json:"outInt"`
-	MgmtEvents     int     `json:"mgmtEvents"`
-	InitSelection  int     `json:"initSel"`
-	CropFileFormat string  `json:"cropFileFormat"`
-	CropParamFmt   string  `json:"cropParamFmt"`
-	PreCorr        int     `json:"preco"`
-	TAnnual10      int     `json:"tAnnual10"`
-	ETpot          int     `json:"etpot"`
-	CO2Method      int     `json:"co2meth"`
-	CO2Conc        int     `json:"co2"`
-	CO2Stomata     int     `json:"co2stom"`
-	NDepo          int     `json:"ndepo"`
-	StartYear      int     `json:"startYear"`
-	End            int     `json:"end"`       // day number
-	AnnualM        int     `json:"annualM"`   // month of annual output date
-	AnnualD        int     `json:"annualD"`   // day of annual output date
-	VirtualDate    string  `json:"virtDate"`  // "--------" for none
-	Lat100         int     `json:"lat100"`
-	Alt            int     `json:"alt"`
-	CoastKm        int     `json:"coast"`
-	PTF            int     `json:"ptf"`
-	LeachDm        int     `json:"leach"`
-	OrgMin100      int     `json:"orgmin100"`
-	KcBare100      int     `json:"kcbare100"`
-	PotMin         int     `json:"potmin"`
-	GWPhase        int     `json:"gwPhase"`
-	FertPct        int     `json:"fertPct"`
-	AutoSow        int     `json:"autoSow"`
-	AutoFert       int     `json:"autoFert"`
-	AutoIrr        int     `json:"autoIrr"`
-	AutoHarv       int     `json:"autoHarv"`
+	DateFormat     int      `json:"dateFormat"`
+	DivideCentury  int      `json:"century"`
+	GWFrom         string   `json:"gwFrom"` // soilfile | polygonfile | gwTimeSeries
+	ResultFormat   int      `json:"resultFormat"`
+	ResultExt      string   `json:"resultExt,omitempty"`
+	OutInt         int      `json:"outInt"`
+	MgmtEvents     int      `json:"mgmtEvents"`
+	InitSelection  int      `json:"initSel"`
+	CropFileFormat string   `json:"cropFileFormat"`
+	CropParamFmt   string   `json:"cropParamFmt"`
+	PreCorr        int      `json:"preco"`
+	TAnnual10      int      `json:"tAnnual10"`
+	ETpot          int      `json:"etpot"`
+	CO2Method      int      `json:"co2meth"`
+	CO2Conc        int      `json:"co2"`
+	CO2Stomata     int      `json:"co2stom"`
+	NDepo          int      `json:"ndepo"`
+	StartYear      int      `json:"startYear"`
+	End            int      `json:"end"`      // day number
+	AnnualM        int      `json:"annualM"`  // month of annual output date
+	AnnualD        int      `json:"annualD"`  // day of annual output date
+	VirtualDate    string   `json:"virtDate"` // "--------" for none
+	Lat100         int      `json:"lat100"`
+	Alt            int      `json:"alt"`
+	CoastKm        int      `json:"coast"`
+	PTF            int      `json:"ptf"`
+	LeachDm        int      `json:"leach"`
+	OrgMin100      int      `json:"orgmin100"`
+	KcBare100      int      `json:"kcbare100"`
+	PotMin         int      `json:"potmin"`
+	GWPhase        int      `json:"gwPhase"`
+	FertPct        int      `json:"fertPct"`
+	AutoSow        int      `json:"autoSow"`
+	AutoFert       int      `json:"autoFert"`
+	AutoIrr        int      `json:"autoIrr"`
+	AutoHarv       int      `json:"autoHarv"`
 	Omit           []string `json:"omit,omitempty"` // keys left out of config.yml (defaults apply)
 }
 
 type Project struct {
-	Name     string     `json:"name"`
-	Seed     int64      `json:"seed"`
-	Cfg      Config     `json:"cfg"`
-	Soil     Soil       `json:"soil"`
-	PlotNr   string     `json:"plot"`
-	PolyID   string     `json:"polyId"`
-	FieldID  string     `json:"field"`
-	GWHigh   int        `json:"gwHigh"`
-	GWLow    int        `json:"gwLow"`
-	Irrig    int        `json:"irrigated"`
-	Rotation []RotEntry `json:"rotation"`
-	Fert     []FertEv   `json:"fert"`
-	Irr      []IrrEv    `json:"irr"`
-	Till     []TillEv   `json:"till"`
-	Measure  *Measure   `json:"measure,omitempty"`
-	GWSeries []GWPoint  `json:"gwSeries,omitempty"`
-	Weather  Weather    `json:"weather"`
-	Daily    []OutCol   `json:"daily,omitempty"`
-	Yearly   []OutCol   `json:"yearly,omitempty"`
-	CropOut  []OutCol   `json:"cropOut,omitempty"`
-	Automan  []AutoRow  `json:"automan,omitempty"` // rows of automan.txt; nil = default rows for the crops of the rotation
-	OtherFields []string `json:"otherFields,omitempty"` // extra field ids mixed into the schedule files (noise of other fields)
-	ExtraArgs []string  `json:"extraArgs,omitempty"`
-	Arms     []string   `json:"arms,omitempty"` // generator arms used (for the evidence)
-	UserCrops map[string]string `json:"userCrops,omitempty"` // user-defined crop code -> shipped crop whose parameters it copies
+	Name        string            `json:"name"`
+	Seed        int64             `json:"seed"`
+	Cfg         Config            `json:"cfg"`
+	Soil        Soil              `json:"soil"`
+	PlotNr      string            `json:"plot"`
+	PolyID      string            `json:"polyId"`
+	FieldID     string            `json:"field"`
+	GWHigh      int               `json:"gwHigh"`
+	GWLow       int               `json:"gwLow"`
+	Irrig       int               `json:"irrigated"`
+	Rotation    []RotEntry        `json:"rotation"`
+	Fert        []FertEv          `json:"fert"`
+	Irr         []IrrEv           `json:"irr"`
+	Till        []TillEv          `json:"till"`
+	Measure     *Measure          `json:"measure,omitempty"`
+	GWSeries    []GWPoint         `json:"gwSeries,omitempty"`
+	Weather     Weather           `json:"weather"`
+	Daily       []OutCol          `json:"daily,omitempty"`
+	Yearly      []OutCol          `json:"yearly,omitempty"`
+	CropOut     []OutCol          `json:"cropOut,omitempty"`
+	Automan     []AutoRow         `json:"automan,omitempty"`     // rows of automan.txt; nil = default rows for the crops of the rotation
+	OtherFields []string          `json:"otherFields,omitempty"` // extra field ids mixed into the schedule files (noise of other fields)
+	ExtraArgs   []string          `json:"extraArgs,omitempty"`
+	Arms        []string          `json:"arms,omitempty"`      // generator arms used (for the evidence)
+	UserCrops   map[string]string `json:"userCrops,omitempty"` // user-defined crop code -> shipped crop whose parameters it copies
 }
 
 // UseCropCode renames the shipped crop base to the user-defined code in the rotation (not the preceding crop of entry 0);
@@ -704,7 +705,11 @@ func OutConfYAML(cols []OutCol) string {
 	sb.WriteString("FillCharacter: ' '\nSeperatorCharacter: ','\nNaValue: n.a.\nDataColumns:\n")
 	for _, c := range cols {
 		sb.WriteString(fmt.Sprintf("- Format: '%s'\n", c.Format))
-		sb.WriteString("  DataAlignment: right\n")
+		al := c.Align
+		if al == "" {
+			al = "right"
+		}
+		sb.WriteString("  DataAlignment: " + al + "\n")
 		w := c.Width
 		if w == 0 {
 			w = 12
@@ -765,7 +770,6 @@ seperatorrune: 32
 
 const automanHeader = "crp Sow1 Sow2 har2 TSmin Smomin Smomax Hmomin Hmomax Rainav Rainact TACCU Tbase Irrdv1 Irrdv2 Ndem1 Ndem2 Ndem3 stage1 stage 2 stage 3 Twindow orgF  amount appdat Irrlow irrdep irrmax    "
 
-
 // AutomanRows returns the rows of the automatic-management table (given or defaults for the rotation's crops).
 func (p *Project) AutomanRows() []AutoRow {
 	if p.Automan != nil {
@@ -802,7 +806,9 @@ func (p *Project) CropColumns() []OutCol   { return p.cropCols() }
 // temperature, the organic pools, all counters and the whole crop state at full precision (%.17g).
 func (p *Project) SetVerificationOutputs() {
 	n := p.Soil.Horizons[len(p.Soil.Horizons)-1].LowerDm
-	f := func(v string, i1, i2 int) OutCol { return OutCol{Var: v, Idx1: i1, Idx2: i2, Format: "%.17g", Width: 26} }
+	f := func(v string, i1, i2 int) OutCol {
+		return OutCol{Var: v, Idx1: i1, Idx2: i2, Format: "%.17g", Width: 26}
+	}
 	cols := []OutCol{{Var: "AKTUELL", Format: "%s", Width: 10}}
 	for i := 0; i < n; i++ {
 		cols = append(cols, f("WG", 1, i), f("C1", i, 0), f("TD", i, 0))
